@@ -85,7 +85,10 @@ def make_block(spec, dest=None):
                            on_enter_on=edzed.Event(dest, 'entered'), on_enter_off=edzed.Event(dest, 'entered'),
                            **kw)
     if kind == 'inputexp':
-        return edzed.InputExp(name, duration=spec.get('duration', 8), expired='EXP',
+        # the 'expired' value is the default None for some blocks: an output that is None is a
+        # legitimate output, not "no output"
+        xkw = {} if spec.get('expired_none') else {'expired': 'EXP'}
+        return edzed.InputExp(name, duration=spec.get('duration', 8), **xkw,
                               on_enter_valid=edzed.Event(dest, 'entered'),
                               on_enter_expired=edzed.Event(dest, 'entered'), **kw)
     if kind == 'timedate':
@@ -417,6 +420,8 @@ def gen_case(rng):
             b['t_off'] = rng.choice([None, None, 6])
         if kind == 'inputexp':
             b['duration'] = rng.choice([2, 8, 40])
+            if rng.random() < 0.5:
+                b['expired_none'] = True
         blocks.append(b)
     events = []
     t = 0
